@@ -274,6 +274,12 @@ def rstmts(ss, ind):
                 out.append("%s%s %s %s ist %s." % (tab, article(s["t"], right=s.get("art", True)), tname(s["t"]), s["n"], rexpr(s["e"])))
         elif k == "set":
             out.append("%sSpeichere %s in %s." % (tab, rexpr(s["e"]), rlv(s["lv"])))
+        elif k == "cset":
+            f = {"plus": "Erhöhe %s um %s.", "minus": "Verringere %s um %s.", "mal": "Vervielfache %s um %s.", "durch": "Teile %s durch %s.",
+                 "shl": "Verschiebe %s um %s Bit nach links.", "shr": "Verschiebe %s um %s Bit nach rechts."}
+            lvs = rlv(s["lv"])
+            lvs = lvs if s["lv"]["k"] == "id" else "(" + lvs + ")"
+            out.append(tab + ("Negiere %s." % lvs if s["op"] == "neg" else f[s["op"]] % (lvs, rexpr(s["e"]))))
         elif k == "print":
             out.append("%sSchreibe %s%s." % (tab, rarg(s["e"]), " auf eine Zeile" if s["nl"] else ""))
         elif k == "expr":
@@ -537,14 +543,27 @@ class Runner:
             return list(ex.map(one, range(len(sources))))
 
 
-def run_forked(runner, src, ncases, opts=(1,), asan=False):
-    """src: DDP source holding extern sichtbar functions fall_0..fall_{n-1}; returns {opt: [result per case]} / fail"""
+DISPATCH_DECL = '''Die Funktion verif_fall_nr gibt eine Zahl zurück,
+ist in "forkmain.c" definiert
+Und kann so benutzt werden:
+	"die Nummer des Falls"
+'''
+
+
+def run_forked(runner, src, ncases, opts=(1,), asan=False, dispatch=False):
+    """src: DDP source holding extern sichtbar functions fall_0..fall_{n-1}; returns {opt: [result per case]} / fail.
+    dispatch: the case is called from the end of the module's top level (imported modules' globals still alive) instead of after it"""
     d = runner.newdir()
+    if dispatch:
+        src = src + "\n" + DISPATCH_DECL + "\n" + "\n".join("Wenn die Nummer des Falls gleich %d ist, fall_%d." % (k, k) for k in range(ncases)) + "\n"
     with open(os.path.join(d, "m.ddp"), "w") as f:
         f.write(src)
     with open(os.path.join(d, "cases.c"), "w") as f:
-        f.write("".join("extern void fall_%d(void);\n" % k for k in range(ncases)))
-        f.write("void (*VERIF_CASES[])(void) = {%s};\nint VERIF_NCASES = %d;\n" % (", ".join("fall_%d" % k for k in range(ncases)), ncases))
+        if dispatch:
+            f.write("extern void verif_noop(void);\nvoid (*VERIF_CASES[])(void) = {%s};\nint VERIF_NCASES = %d;\n" % (", ".join("verif_noop" for k in range(ncases)), ncases))
+        else:
+            f.write("".join("extern void fall_%d(void);\n" % k for k in range(ncases)))
+            f.write("void (*VERIF_CASES[])(void) = {%s};\nint VERIF_NCASES = %d;\n" % (", ".join("fall_%d" % k for k in range(ncases)), ncases))
     p = subprocess.run(["gcc", "-c", "cases.c", "-o", "cases.o"], cwd=d, stdout=subprocess.PIPE, stderr=subprocess.STDOUT, text=True)
     res = dict(dir=d, runs={}, fail={})
     for o in opts:
